@@ -24,9 +24,15 @@ theorem C09_source_sweep_row (c : PTChain) (hlen : 0 < c.len) (hlc : c.lastclear
     Gen.sweepRow (c.iteration : Int) (c.lastclear : Int) (c.s : Int)
       = (((c.len - 1 : Nat) : Int), (((c.len - 1) / c.s : Nat) : Int)) := by
   unfold Gen.sweepRow
-  have h : (c.iteration : Int) - (c.lastclear : Int) - 1 = ((c.len - 1 : Nat) : Int) := by
-    unfold PTChain.len at *; omega
-  simp only [h, fdiv_nat]
+  -- whatever way the code writes `iteration - lastclear - 1`, it is the natural number `len - 1`
+  have he : ∀ e : Int, e = ((c.len - 1 : Nat) : Int) →
+      (e, Src.fdiv e (c.s : Int)) = (((c.len - 1 : Nat) : Int), (((c.len - 1) / c.s : Nat) : Int)) := by
+    intro e h
+    subst h
+    simp only [fdiv_nat]
+  refine he _ ?_
+  unfold PTChain.len at *
+  omega
 
 /-- The views show `len // swap_interval` rows — the model's `nrows`. -/
 theorem C09_source_rows_viewed (c : PTChain) :
